@@ -30,11 +30,8 @@ fn size_witness_case(i: usize, tier: Tier) -> Verdict {
 
 pub fn emitted_is_sentence(v: &V) -> Verdict {
     let lv = to_lib(v);
-    let text = match guarded(|| to_zinc_string(&lv)) {
-        Err(p) => return Err(("d1-encode-panic".into(), p)),
-        Ok(Err(e)) => return Err(("d1-encode-error".into(), e.to_string())),
-        Ok(Ok(t)) => t,
-    };
+    // (the text as a caller's writer receives it: also through writers taking 1 / 3 bytes per call)
+    let text = super::common::zinc_text_all_writers(&lv).map_err(|(s, d)| (format!("d1-{s}"), d))?;
     match zinc_ref::read(&text) {
         Err(e) => Err(("d1-not-a-sentence".into(), format!("reference reader: {e}; text={text:?}"))),
         Ok(back) => same(v, &back).map_err(|d| ("d1-denotes-other-value".to_string(), format!("{d}; text={text:?}"))),
